@@ -9,6 +9,7 @@ CHUNK = 50
 RULE = ("One evaluation = one seeded history with composite steps status -> run --dry-run -> run from the same state (three-way agreement inside the cone), `gwf status` with every combination of -s/--endpoints/patterns/-f default|summary compared to the restriction of the full table computed with the harness' own filter semantics (including empty restrictions), and purity snapshots (all project files incl. logs of renamed/removed targets: content+mtime; parsed .gwf/*.json; scheduler mutation journal) around status and dry-run; targets are renamed, removed and added along the way. Non-trivial = at least one of these comparisons ran.")
 PROFILE = dict(
     nontrivial_probes=['purity_checks', 'status_dryrun_run_triples', 'filtered_status_checks'],
+    sizes=[0, 1, 2, 3, 3, 4, 4, 5, 6, 8],
     backends=["slurm", "slurm", "sge", "lsf", "local"],
     weights=dict(triple=3, status=1, status_filtered=3, dry_run=1.5, run=1, start=2, finish=2, sched_cancel=0.7,
                  purge=0.5, acct_flush=0.5, modify_source=0.7, delete_output=0.7, edit_spec=0.5, advance=0.5, rename=0.5, remove=0.3,
